@@ -55,8 +55,9 @@ def cases(tier, seed):
         for a, b in itertools.product(REPR, repeat=2):
             out.append({"h": "H11", "cfg": cfg, "ents": [a, b], "prior": 0, "collect": 5 if cfg == "two" else 0, "_w": 2})
     if tier == "thorough":
-        for a, b, c in itertools.product(REPR[:4], repeat=3):
-            out.append({"h": "H11", "cfg": "two", "ents": [a, b, c], "prior": 0, "collect": 0, "_w": 3})
+        for cfg in ("two", "three"):
+            for a, b, c in itertools.product(REPR, repeat=3):
+                out.append({"h": "H11", "cfg": cfg, "ents": [a, b, c], "prior": 0, "collect": 5 if cfg == "two" else 0, "_w": 3})
     return out
 
 
